@@ -29,6 +29,11 @@ var checks = map[string]checkSpec{
 		Quick:     60 * time.Second, Thorough: 15 * time.Minute, Level: "exploration",
 		Rule: "Close placed by the seeded scheduler anywhere inside concurrent WriteMessages calls (Writer), during joins, syncs, rebalances, fetches and commits with healthy, slow, erroring or silent coordinators (Reader, ConsumerGroup); bounded return of Close, completions before Close returns, io.ErrClosedPipe / io.EOF after Close, context errors at the instant the context ends, no request after Close, LeaveGroup, and a goroutine/connection census after the network time-outs.",
 	},
+	"C06": {
+		Scenarios: []scnSpec{{Name: "crosstalk", Share: 1}},
+		Quick:     40 * time.Second, Thorough: 12 * time.Minute, Level: "exploration",
+		Rule: "2-8 goroutines share one Conn (ReadOffset with injective answers, ReadPartitions of distinct topics, ReadOffsets, Brokers, SetDeadline racing with I/O) or one Transport/Client (ListOffsets, Metadata, OffsetFetch, Fetch of pairwise distinct targets) with contexts cancelled or expiring mid-flight, slow / silent brokers, cuts and error codes; every call must return its own (precomputed) answer or an error, and correlation ids must be unique per connection.",
+	},
 	"C07": {
 		Scenarios: []scnSpec{{Name: "writer", Params: "focus=order", Share: 1}},
 		Quick:     35 * time.Second, Thorough: 10 * time.Minute, Level: "exploration",
